@@ -35,6 +35,7 @@ class Exec(ExprMixin, StmtMixin, CallMixin):
         self.pure_cache = {}
         self.qvars = []
         self.named_facts = {}
+        self.param_cache = {}
         self.listsets = False
         for m in (models or []): m.install(self)
 
@@ -79,8 +80,10 @@ class Exec(ExprMixin, StmtMixin, CallMixin):
 
     def spec_call(self, n, e, p):
         a = e.args
+        if n in self.defs and len(self.defs[n]) == 3 and self.defs[n][2] == 'parametric':
+            return self.parametric_call(n, a, p)
         if n in self.defs:
-            params, body = self.defs[n]
+            params, body = self.defs[n][0], self.defs[n][1]
             if n in self.contract.get('state_independent', ()):
                 # macro over parameters / argparse constants only: the same term on every path, evaluated once.
                 # Only calls whose arguments mention nothing but (never reassigned) parameters and constants are cached.
@@ -155,6 +158,25 @@ class Exec(ExprMixin, StmtMixin, CallMixin):
         if n == 'opt_is_none': return VBool(Opt.is_none(self.toopt(self.ev(a[0], p))))
         if n == 'opt_val': return VInt(Opt.v(self.toopt(self.ev(a[0], p))))
         if n == 'real': return VReal(self.toreal(self.ev(a[0], p)))
+        if n == 'joined':
+            v = self.ev(a[0], p)
+            if isinstance(v, VStr) and len(v.atoms) == 1 and isinstance(v.atoms[0], tuple) and v.atoms[0][0] == 'join': return v.atoms[0][2]
+            raise StaleContract('joined() of a string that is not a join')
+        if n == 'after':
+            # after(s, 'label'): the atoms of skeleton s that follow the literal label, up to the next newline
+            v = self.ev(a[0], p); lab = a[1].value
+            return self.skeleton_after(v, lab)
+        if n == 'lam':
+            # lam(i, n, body): the list [body(0), ..., body(n-1)] as a named array (for instantiating sum lemmas)
+            j = fresh(a[0].id, I); q = p.fork(); q.env[a[0].id] = VInt(j)
+            hi = self.ev(a[1], p).t
+            self.qvars.append(j)
+            try: b = self.ev(a[2], q)
+            finally: self.qvars.pop()
+            t, r = self.num(b, 'lam', p, 0)
+            if z3.is_select(t) and t.arg(1).eq(j) and not contains(t.arg(0), j): arr = t.arg(0)
+            else: arr = self.lemmas.named_array(j, t, [v for v in self.qvars if contains(t, v)])
+            return VList(hi, arr, 'real' if r else 'int')
         if n in ('Sum', 'Count', 'SumR'):
             # Sum(q, n, body): sum of body for q in [0, n)
             if not isinstance(a[0], ast.Name): raise StaleContract('Sum variable')
@@ -259,6 +281,72 @@ def wf(v):
     return z3.BoolVal(True)
 
 
+def _parametric_call(self, n, a, p):
+    """Macro evaluated ONCE over symbolic parameters (named arrays inside become functions of the parameters), then
+    instantiated by substitution: two uses of the macro with different arguments are instances of one term, so sums
+    written through it agree syntactically between a callee's postcondition and a caller's specification."""
+    params, body = self.defs[n][0], self.defs[n][1]
+    if len(params) != len(a): raise StaleContract('arity of spec function ' + n)
+    vals = [self.ev(x, p) for x in a]
+    hk = tuple(sorted((k, t.get_id()) for k, t in p.heap.items())) + tuple(sorted((k, t.get_id()) for k, t in p.has.items()))
+    ck = (n, hk, tuple(type(v).__name__ + str(getattr(v, 'kind', '')) for v in vals))
+    if ck not in self.param_cache:
+        q = p.fork(); q.env = {}; syms = []; zs = []
+        for nm, v in zip(params, vals):
+            c = fresh_like('%s$%s' % (n, nm), v); q.env[nm] = c; syms.append(c)
+            zs += value_terms(c)
+        saved = self.qvars; self.qvars = saved + zs
+        try: res = self.ev(parse_spec(body), q)
+        finally: self.qvars = saved
+        self.param_cache[ck] = (syms, res, dict(p.heap), dict(p.has))
+    syms, res, _, _ = self.param_cache[ck]
+    pairs = []
+    for c, v in zip(syms, vals):
+        for x, y in zip(value_terms(c), value_terms(v)): pairs.append((x, y))
+    return subst_value(res, pairs)
+
+
+def value_terms(v):
+    if isinstance(v, (VInt, VBool, VReal, VRef, VOpt, VTok, VPy)): return [v.t]
+    if isinstance(v, VList): return [v.len, v.arr]
+    raise StaleContract('parametric macro argument %r' % (v,))
+
+
+def subst_value(v, pairs):
+    if isinstance(v, VInt): return VInt(z3.substitute(v.t, *pairs))
+    if isinstance(v, VBool): return VBool(z3.substitute(v.t, *pairs))
+    if isinstance(v, VReal): return VReal(z3.substitute(v.t, *pairs))
+    if isinstance(v, VOpt): return VOpt(z3.substitute(v.t, *pairs))
+    raise StaleContract('parametric macro result %r' % (v,))
+
+
+Exec.parametric_call = _parametric_call
+
+
+def _skeleton_after(self, v, lab):
+    atoms = flatten_atoms(v.atoms)
+    for i, at in enumerate(atoms):
+        if isinstance(at, str) and lab in at:
+            rest = at[at.index(lab) + len(lab):]
+            out = []
+            if '\n' in rest: return VStr([rest[:rest.index('\n')]])
+            if rest: out.append(rest)
+            for b in atoms[i + 1:]:
+                if isinstance(b, str):
+                    if '\n' in b: out.append(b[:b.index('\n')]); return VStr(out)
+                    out.append(b)
+                else: out.append(b)
+            return VStr(out)
+    return VStr([('absent', lab)])
+
+
+def flatten_atoms(atoms):
+    return list(atoms)
+
+
+Exec.skeleton_after = _skeleton_after
+
+
 def contains(t, x):
     seen = set(); stack = [t]
     while stack:
@@ -283,6 +371,7 @@ def named_of_kind(name, k):
     if isinstance(k, tuple) and k[0] == 'list':
         return VList(z3.Int(name + '.len'), z3.Array(name + '.arr', I, sort_of(k[1])), k[1])
     if isinstance(k, tuple) and k[0] == 'str': return VStr([('opaque', name)])
+    if isinstance(k, tuple) and k[0] == 'joinstr': return fresh_of_kind(name, k)
     raise StaleContract('unknown declared kind %r for %s' % (k, name))
 
 
